@@ -197,6 +197,10 @@ impl<'tcx> Cx<'tcx> {
                 if rd != d {
                     v.push(("res", J::s(self.did(rd))));
                     v.push(("resp", J::s(self.dname(rd))));
+                    // generic arguments of the selected impl item (in ITS generics' order)
+                    if matches!(inst.def, ty::InstanceKind::Item(_)) {
+                        v.push(("resa", self.args_json(inst.args)));
+                    }
                 }
                 if let ty::InstanceKind::Virtual(..) = inst.def {
                     v.push(("virt", J::Bool(true)));
@@ -527,6 +531,7 @@ impl<'tcx> Cx<'tcx> {
         // trait bounds on type parameters: [param, trait]
         {
             let mut bounds = Vec::new();
+            let mut bounds_full = Vec::new();
             let preds = tcx.predicates_of(d).instantiate_identity(tcx);
             for clause in preds.predicates.iter() {
                 let clause = clause.skip_norm_wip();
@@ -535,10 +540,22 @@ impl<'tcx> Cx<'tcx> {
                     let self_ty = tp.trait_ref.self_ty();
                     if let ty::Param(p) = self_ty.kind() {
                         bounds.push(J::Arr(vec![J::s(p.name.to_string()), J::s(self.dname(tp.trait_ref.def_id))]));
+                        let mut targs = Vec::new();
+                        for a in tp.trait_ref.args.iter().skip(1) {
+                            if let GenericArgKind::Type(t) = a.kind() {
+                                targs.push(J::n(self.ty_id(t)));
+                            }
+                        }
+                        bounds_full.push(J::Arr(vec![
+                            J::s(p.name.to_string()),
+                            J::s(self.dname(tp.trait_ref.def_id)),
+                            J::Arr(targs),
+                        ]));
                     }
                 }
             }
             v.push(("bounds", J::Arr(bounds)));
+            v.push(("bounds_full", J::Arr(bounds_full)));
         }
         if matches!(kind, DefKind::Fn | DefKind::AssocFn) {
             let sig = tcx.fn_sig(d).skip_binder().skip_binder();
@@ -880,12 +897,30 @@ pub fn dump_crate<'tcx>(tcx: TyCtxt<'tcx>) -> String {
     }
     feats.sort();
     let is_test = tcx.sess.is_test_crate();
+    // implied-feature closure for the x86 features the crate may detect, and the baseline
+    let mut implied = Vec::new();
+    for f in ["sse", "sse2", "sse3", "ssse3", "sse4.1", "sse4.2", "avx", "avx2", "fma", "f16c", "bmi1", "bmi2", "popcnt", "avx512f"] {
+        let v: Vec<J> = tcx
+            .implied_target_features(rustc_span::Symbol::intern(f))
+            .iter()
+            .map(|s| J::s(s.to_string()))
+            .collect();
+        implied.push(J::Arr(vec![J::s(f), J::Arr(v)]));
+    }
+    let baseline: Vec<J> = tcx
+        .sess
+        .target_features
+        .iter()
+        .map(|s| J::s(s.to_string()))
+        .collect();
     lines.push(
         o(vec![
             ("rec", J::s("crate")),
             ("name", J::s(tcx.crate_name(rustc_span::def_id::LOCAL_CRATE).to_string())),
             ("features", J::Arr(feats.into_iter().map(J::s).collect())),
             ("test", J::Bool(is_test)),
+            ("implied", J::Arr(implied)),
+            ("baseline", J::Arr(baseline)),
             ("debug_assertions", J::Bool(tcx.sess.opts.debug_assertions)),
             ("overflow_checks", J::Bool(tcx.sess.overflow_checks())),
         ])
